@@ -129,6 +129,15 @@ def roundtrip(cpu, mem, tag, via='bin', entries=None, must=True):
 BR6800 = ['bra', 'bne', 'beq', 'bcc', 'bcs', 'bpl', 'bmi', 'bvc', 'bvs', 'bge', 'blt', 'bgt', 'ble', 'bhi', 'bls', 'bsr']
 
 
+def table_programs():
+    """every form of the M6800 reference table of C14 (mc/isa.py) that is not placed by its own ORG, as a one-instruction program"""
+    from .. import isa
+    for x in isa.forms_6800():
+        if x['want'] == 'ERR' or 'at' in x or x['sig'] in ('6800/JMP ext', '6800/JSR ext'):
+            continue          # (jumps and calls must lead into the image: covered by programs())
+        yield {'k': 'prog', 'cpu': '6800', 'src': '\torg $100\n%s\n\tswi\n' % x['line'], 'tag': x['line'].strip()}
+
+
 def programs(tier):
     q = tier == 'quick'
     back = [2, 3, 125, 126] if q else [2, 3, 4, 60, 124, 125, 126]
@@ -174,6 +183,7 @@ def subspaces(tier):
     for cpu in CPUS:
         subs.append(('a:images-%s' % cpu, images(cpu)))
     subs.append(('b:branch-distance-programs', list(programs(tier))))
+    subs.append(('c:every-6800-instruction-form', list(table_programs())))
     return subs
 
 
